@@ -143,6 +143,7 @@ type caseSpec struct {
 	slowPath bool   // rotate through RotateToken (600k-iteration hashToken) instead of ApplyRotateToken
 	vals     []int  // value each verifier presents: 1 = the issued value, 2 = the rotated-to value, 3 = never issued
 	warm     bool   // one sequential verification before the threads start (cache holds the value)
+	warmTick int64  // with warm: clock advance after that verification (past half the cache TTL: a sliding-expiration hit path would re-insert)
 	legacy   bool   // row stored with token_prefix = '__legacy__'
 	pbk      bool   // pbkdf2 (iter 1) instead of legacy sha256 hash
 	expiry   int64  // 0 = none, else offset (ns) from the case's time origin
@@ -333,6 +334,11 @@ func (h *H) runForced(cs caseSpec, prefix []int, rnd *vh.Rand, tickP int) runOut
 	}
 	if cs.warm {
 		seq(1, tok1)
+		if cs.warmTick > 0 {
+			now += cs.warmTick
+			verifclock.Set(base + now)
+			h.op(fmt.Sprintf("tick %d", cs.warmTick), fmt.Sprintf("now=%d", now))
+		}
 	}
 	n := len(cs.vals)
 	ths := make([]*thr, n+1)
@@ -955,6 +961,9 @@ func main() {
 						vals[i] = 1
 					}
 					cs := caseSpec{cluster: cluster, kind: kind, vals: vals, warm: warm, m: mBig, pbk: (nv+len(kind))%2 == 0}
+					if warm {
+						cs.warmTick = mBig.ttl/2 + sec // entries past half their lifetime, still valid
+					}
 					lim := 0
 					switch {
 					case slowRotate && nv == 1:
@@ -1013,6 +1022,9 @@ func main() {
 		cs := caseSpec{cluster: cluster, kind: kind, vals: vals, warm: r.Chance(35), legacy: r.Chance(20), pbk: r.Bool(),
 			m: vh.Pick(r, []*mgr{mBig, mBig, mOne, mZero})}
 		cs.slowPath = slowPath
+		if cs.warm && r.Bool() {
+			cs.warmTick = cs.m.ttl/2 + int64(r.Intn(1000))*sec
+		}
 		tickP := 0
 		if r.Chance(45) {
 			cs.expiry = vh.Pick(r, []int64{5 * sec, 60 * sec, cs.m.ttl + 5*sec})
